@@ -24,6 +24,8 @@
 
 #include <cstddef>
 #include <iosfwd>
+#include <istream>
+#include <limits>
 #include <vector>
 
 namespace hep
@@ -62,6 +64,10 @@ public:
 
         for (std::size_t i = 0; i != size; ++i)
         {
+            // consume the newline that separates the previous line from the name of the
+            // distribution, which is a line of its own
+            in.ignore(std::numeric_limits<std::streamsize>::max(), '\n');
+
             distributions_.emplace_back(in);
         }
     }
